@@ -512,9 +512,84 @@ def _run_errline(case: dict) -> core.CaseResult:
     return res
 
 
+def _run_sessions(case: dict) -> core.CaseResult:
+    """Several edit_file_recursive sessions in ONE process: between sessions the directory changes (through the editor or
+    behind its back, or the next session runs in another directory with the same relative spellings). Every session must
+    visit exactly the files the include directives match on disk at that moment - nothing may be remembered.
+    case = {kind:'sessions', sp: 'abs'|'bare', worlds: [ {name: [includes]} ... ] }: world i is what the directory holds
+    when session i starts (files are (re)written / deleted behind the editor's back to get there)."""
+    res = core.CaseResult()
+    parser = docs.P()
+    ed = editor_lib.Editor(parser)
+    top = os.path.realpath(tempfile.mkdtemp(prefix=_tmp_prefix(), dir=_tmp_base()))
+    old_cwd = os.getcwd()
+    try:
+        world = os.path.join(top, 'dir')
+        os.mkdir(world)
+        for n, files in enumerate(case['worlds']):
+            # bring the directory to the state `files`
+            for name in os.listdir(world):
+                if name not in files:
+                    os.unlink(os.path.join(world, name))
+            for name, incs in files.items():
+                with open(os.path.join(world, name), 'wb') as f:
+                    f.write(file_bytes(name, 'l', incs, 0, world))
+            names = sorted(files)
+            expect = set()
+            queue = ['main.bean']
+            while queue:
+                cur = queue.pop()
+                if cur in expect:
+                    continue
+                expect.add(cur)
+                for inc in files[cur]:
+                    queue.extend(resolve(inc, cur, names))
+            root = os.path.join(world, 'main.bean') if case['sp'] == 'abs' else 'main.bean'
+            os.chdir(world)
+            res.transitions += 1
+            try:
+                with ed.edit_file_recursive(root) as mapping:
+                    got = {os.path.relpath(os.path.realpath(k), world) for k in mapping}
+            except Exception as e:  # noqa
+                res.fail('C16/later-session-fails[edit_file_recursive]',
+                         f'session {n + 1} of {case["worlds"]} ({case["sp"]} spelling) raised {type(e).__name__}: {str(e).replace(top, "<tmp>")}', case)
+                return res
+            finally:
+                os.chdir(old_cwd)
+            if got != expect:
+                res.fail('C16/later-session-visits-other-files-than-the-includes-match[edit_file_recursive]',
+                         f'session {n + 1} of {case["worlds"]} ({case["sp"]} spelling) visited {sorted(got)}, the include directives '
+                         f'match {sorted(expect)} on disk', case)
+                return res
+        h = core.h64(repr(case))
+        res.states.add(h)
+        res.nontrivial.add(h)
+        res.outcomes['sessions-consistent'] += 1
+    finally:
+        os.chdir(old_cwd)
+        shutil.rmtree(top, ignore_errors=True)
+    return res
+
+
+def session_cases() -> list:
+    base = {'main.bean': ['*.bean'], 'a.bean': [], 'b.bean': []}
+    grown = dict(base, **{'new.bean': []})
+    shrunk = {'main.bean': ['*.bean'], 'b.bean': []}
+    explicit = {'main.bean': ['a.bean'], 'a.bean': ['b.bean'], 'b.bean': []}
+    explicit2 = {'main.bean': ['a.bean'], 'a.bean': [], 'b.bean': []}
+    out = []
+    for sp in ('abs', 'bare'):
+        for seq in ([base, grown], [base, shrunk], [grown, base, grown], [base, base], [explicit, explicit2, explicit],
+                    [shrunk, grown, shrunk]):
+            out.append({'kind': 'sessions', 'sp': sp, 'worlds': seq})
+    return out
+
+
 def run_case(case: dict) -> core.CaseResult:
     if case.get('kind') == 'errline':
         return _run_errline(case)
+    if case.get('kind') == 'sessions':
+        return _run_sessions(case)
     res = core.CaseResult()
     files = expand_world(case['w'])
     api, edit, st, rz = case['api'], case.get('edit', []), case.get('st'), case.get('rz')
@@ -705,6 +780,8 @@ def build_cases(tier: str) -> tuple:
         pruned.append('k=4 only in the thorough tier')
     nomatch_worlds = [w for w in variant_worlds('quick') if expected_visit(expand_world(w))[1]]
     items.append({'kind': 'errline', 'worlds': nomatch_worlds, 'sp': SPELLINGS})
+    items.extend(session_cases())
+    bounds['sessions'] = 'sequences of 2-3 recursive sessions in one process over a directory that grows / shrinks / changes its includes in between, absolute and bare root spelling'
     return items, bounds, pruned
 
 
